@@ -47,27 +47,20 @@ class Check(PropertyCheck):
         lines += [f"fres {b} {rm} {rj}", "fsnap"]
         tr = gen.Tracker(jobs)
         n_acc = 0
-        for ep in range(2 if rng.random() < 0.3 else 1):
+        n_eps = rng.choice([1, 1, 1, 2, 3, 3])       # later episodes start from the graph updater's stored initial graph
+        for ep in range(n_eps):
             while not tr.done():
                 j, p, m = gen.gen_valid_request(rng, tr)
                 tr.take(j)
                 n_acc += 1
                 lines += [f"disp {j} {p} {m}", "fsnap"]
-                if ep == 0 and rng.random() < 0.03:
+                if ep < n_eps - 1 and rng.random() < 0.05:
                     break
-            if ep == 0:
-                last = ep
-            if ep < 1 and len(lines) and rng.random() < 1.0:
-                pass
-        if rng.random() < 0.3:
-            lines += ["reset", "fsnap"]
-            tr.reset()
-            while not tr.done():
-                j, p, m = gen.gen_valid_request(rng, tr)
-                tr.take(j)
-                lines += [f"disp {j} {p} {m}", "fsnap"]
+            if ep < n_eps - 1:
+                lines += ["reset", "fsnap"]
+                tr.reset()
         meta = {"family": family, "builder": b, "rm_machine": rm, "rm_job": rj, "flexible": gen.is_flexible(jobs),
-                "filter": "none" if f is None else "+".join(f) or "empty-composite", "accepted": n_acc,
+                "filter": "none" if f is None else "+".join(f) or "empty-composite", "accepted": n_acc, "episodes": n_eps,
                 "filter_style": rng.choice(["callable", "enum", "str"])}
         return Scenario(lines, meta)
 
